@@ -27,7 +27,7 @@ impl Monitor for C02 {
 		"C02"
 	}
 	fn rule(&self) -> String {
-		"C01's replay space (fixtures, all 784 versions, layout x shape matrix incl. zero frames / no metadata / no Game End / no gecko / doubled end / empty port set, random histories) x compression {none, LZ4, ZSTD} x hash {requested, not}. Steps observed separately: slippi::read -> peppi::write -> peppi::read -> slippi::write; oracle: final bytes == input bytes, hash and quirks after the trip == before. One evaluation = one (file, compression, hash) triple. distinct = workload classes x compression x hash.".into()
+		"C01's replay space (fixtures, all 784 versions, layout x shape matrix incl. zero frames / no metadata / no Game End / no gecko / doubled end / empty port set, random histories) x compression {none, LZ4, ZSTD} x hash {requested, not}. Steps observed separately: slippi::read -> peppi::write -> peppi::read (through the fragmenting source: whole / 512 / 97 / random<=3000 / 8192-byte reads, rotating) -> slippi::write; oracle: final bytes == input bytes, hash and quirks after the trip == before. One evaluation = one (file, compression, hash) triple. distinct = workload classes x compression x hash.".into()
 	}
 	fn lanes(&self, _tier: Tier) -> Vec<Lane> {
 		vec![
@@ -80,11 +80,21 @@ impl Monitor for C02 {
 					}
 				};
 				out.count("slpp_bytes", slpp.len() as u64);
-				let game2 = match common::slpp_read(&slpp, false) {
+				// the archive is read through the instrumented source under a read schedule that
+				// rotates with the case: peppi::read takes any `Read`, short reads included
+				let sched = match (idx + ci + hash as usize) % 5 {
+					0 => crate::iofault::Policy::Whole,
+					1 => crate::iofault::Policy::Fixed(512),
+					2 => crate::iofault::Policy::Fixed(97),
+					3 => crate::iofault::Policy::Random(3000, idx as u64),
+					_ => crate::iofault::Policy::Fixed(8192),
+				};
+				out.class(format!("slpp-read-schedule={}", sched.name()));
+				let game2 = match common::slpp_read_src(crate::iofault::Src::new(std::sync::Arc::new(slpp.clone()), sched.clone()), false) {
 					Ok(g) => g,
 					Err(f) => {
 						let class = if truth.frames.is_empty() { "zero-frames" } else if truth.metadata.is_none() { "no-metadata" } else { "other" };
-						out.violate(format!("step=slpp_read;{};class={}", f.sig(), class), format!("{} comp={}: peppi::read of freshly written .slpp failed: {}", desc, comp.name(), f.text()), Some(&bytes));
+						out.violate(format!("step=slpp_read;{};class={}", f.sig(), class), format!("{} comp={} schedule={}: peppi::read of freshly written .slpp failed: {}", desc, comp.name(), sched.name(), f.text()), Some(&bytes));
 						continue;
 					}
 				};
